@@ -242,6 +242,10 @@ class Pipeline:
                     rec['ret'] = 'none'
                     return None
                 if seq in (beh.get('skip') or ()):
+                    pipe.hook(self, 'skip', k)
+                    if beh.get('ret') in ('callable', 'callable_frame'):     # a deferred result that decides at send time that there is nothing to send
+                        rec['ret'] = 'callable_none'
+                        return lambda: None
                     rec['ret'] = 'none'
                     return None
                 if seq in (beh.get('empty') or ()):
